@@ -56,7 +56,7 @@ func (S) Info() scen.Info {
 			"block streams / loader": "stub: simstore observes every block open, chunks reads, returns traversal.SkipMe when told",
 			"goroutine scheduling":   "stub: single walker task under the seeded scheduler",
 		},
-		QuickUnits: 1500, ThoroughUnits: 150000, QuickSecs: 240, ThoroughSecs: 1200,
+		QuickUnits: 2500, ThoroughUnits: 150000, QuickSecs: 240, ThoroughSecs: 1200,
 		ProbeKeys: []string{"probe.budget_cut_mid_block", "probe.linkbudget_cut", "probe.startat_inside_linked_block", "probe.startat_skipped_load", "probe.once_pruned", "probe.skipme_pruned", "probe.resume_concat_checked", "probe.w0_ended_in_error", "probe.repeated_link", "probe.matching_walk", "probe.transform_budget_cut", "probe.walklocal_budget_cut"},
 		EventsKey: "events",
 	}
